@@ -254,6 +254,52 @@ fn dyn_clock(kind: u8, events: &Rc<RefCell<Vec<char>>>) -> (Ctl, Reference<dyn T
 // ------------------------------------------------------------------------------------------------
 // sub-check `seq`: settable bookkeeping + following + constant getter
 // ------------------------------------------------------------------------------------------------
+/// The user-implemented settable of the `seq` sub-check: records every `impl_set` (value, accepted),
+/// rejects on demand, and reads its OWN bookkeeping from the inside: `get_last_request()` as seen while
+/// `impl_set` runs (the incoming request has not succeeded yet, so it must still be the previous
+/// successful one) and at the end of `update()`.
+struct Rec15 {
+    data: SettableData<i64, E>,
+    log: Vec<(i64, bool)>,
+    /// get_last_request() observed inside each impl_set call
+    seen_in_impl_set: Vec<Option<i64>>,
+    /// get_last_request() observed inside each update(), after update_following_data (if called)
+    seen_in_update: Vec<Option<i64>>,
+    reject: bool,
+    reject_with: u8,
+    follows_in_update: bool,
+}
+impl Rec15 {
+    fn new() -> Self {
+        Rec15 { data: SettableData::new(), log: Vec::new(), seen_in_impl_set: Vec::new(), seen_in_update: Vec::new(), reject: false, reject_with: 9, follows_in_update: true }
+    }
+}
+impl Settable<i64, E> for Rec15 {
+    fn impl_set(&mut self, value: i64) -> NothingOrError<E> {
+        let seen = self.get_last_request();
+        self.seen_in_impl_set.push(seen);
+        self.log.push((value, !self.reject));
+        if self.reject {
+            Err(Error::Other(self.reject_with))
+        } else {
+            Ok(())
+        }
+    }
+    fn get_settable_data_ref(&self) -> &SettableData<i64, E> {
+        &self.data
+    }
+    fn get_settable_data_mut(&mut self) -> &mut SettableData<i64, E> {
+        &mut self.data
+    }
+}
+impl Updatable<E> for Rec15 {
+    fn update(&mut self) -> NothingOrError<E> {
+        let r = if self.follows_in_update { self.update_following_data() } else { Ok(()) };
+        let seen = self.get_last_request();
+        self.seen_in_update.push(seen);
+        r
+    }
+}
 #[derive(Clone, Copy, Debug, PartialEq, Eq, Hash)]
 enum Fol {
     A,
@@ -337,6 +383,11 @@ fn ev_val(e: &Ev<i64>) -> Result<Option<i64>, Er> {
 struct Model {
     last: Option<i64>,
     log: Vec<(i64, bool)>,
+    /// last request as it must appear from inside each impl_set call / at the end of each update()
+    seen_in_impl_set: Vec<Option<i64>>,
+    seen_in_update: Vec<Option<i64>>,
+    /// impl_set calls in which the incoming value differs from the last successful request
+    distinguishing_sets: u64,
     fol: Option<Fol>,
     a: Ev<i64>,
     b: Ev<i64>,
@@ -368,6 +419,11 @@ impl Model {
     }
     /// set: the inner impl_set sees the value; last request only moves when it succeeded
     fn set(&mut self, v: i64, reject: Option<u8>) -> Result<(), Er> {
+        // while impl_set runs the incoming request has not succeeded yet
+        self.seen_in_impl_set.push(self.last);
+        if self.last != Some(v) {
+            self.distinguishing_sets += 1;
+        }
         self.log.push((v, reject.is_none()));
         match reject {
             Some(c) => Err(Error::Other(c)),
@@ -511,11 +567,14 @@ fn seq_case(rep: &mut Report, seed: u64, case: u64) {
     let cg = rc(ConstantGetter::<i64, dyn TimeGetter<E>, E>::new(tgref, v0));
     let cg_dyn: Rc<RefCell<dyn Getter<i64, E>>> = cg.clone();
     let (a, b) = (Src::<i64>::new(), Src::<i64>::new());
-    let mut rec = RecSettable::<i64>::new();
+    let mut rec = Rec15::new();
     rec.follows_in_update = follows_in_update;
     let mut m = Model {
         last: None,
         log: Vec::new(),
+        seen_in_impl_set: Vec::new(),
+        seen_in_update: Vec::new(),
+        distinguishing_sets: 0,
         fol: None,
         a: Ev::None,
         b: Ev::None,
@@ -542,7 +601,7 @@ fn seq_case(rep: &mut Report, seed: u64, case: u64) {
             ops.push(op.clone());
             opname = op.name();
             rep.tally(&format!("seq_op/{}", opname));
-            let set_reject = |rec: &mut RecSettable<i64>, r: &Option<u8>| {
+            let set_reject = |rec: &mut Rec15, r: &Option<u8>| {
                 rec.reject = r.is_some();
                 rec.reject_with = r.unwrap_or(0);
             };
@@ -623,7 +682,7 @@ fn seq_case(rep: &mut Report, seed: u64, case: u64) {
                     Ok(())
                 }
                 Op::Update(r) => {
-                    if follows_in_update {
+                    let res = if follows_in_update {
                         let (res, cat) = m.follow_step(*r);
                         rep.tally(&format!("seq_update/{}", cat));
                         if m.fol == Some(Fol::Cg) {
@@ -633,7 +692,9 @@ fn seq_case(rep: &mut Report, seed: u64, case: u64) {
                     } else {
                         rep.tally("seq_update/settable-without-update_following_data");
                         Ok(())
-                    }
+                    };
+                    m.seen_in_update.push(m.last);
+                    res
                 }
                 Op::UpdFollow(r) => {
                     let (res, cat) = m.follow_step(*r);
@@ -725,6 +786,16 @@ fn seq_case(rep: &mut Report, seed: u64, case: u64) {
                 format!("impl_set received {:?}, model {:?}; {}", rec.log, m.log, ctx(&ops)));
         }
         rep.eval();
+        if rec.seen_in_impl_set != m.seen_in_impl_set {
+            rep.violation(&format!("C15/last_request-inside-impl_set/after-{}", opname), sub, case,
+                format!("get_last_request() seen from inside the impl_set calls {:?}, model (last SUCCESSFUL set at that moment) {:?}; impl_set log {:?}; {}", rec.seen_in_impl_set, m.seen_in_impl_set, rec.log, ctx(&ops)));
+        }
+        rep.eval();
+        if rec.seen_in_update != m.seen_in_update {
+            rep.violation(&format!("C15/last_request-inside-update/after-{}", opname), sub, case,
+                format!("get_last_request() seen at the end of the update() calls {:?}, model {:?}; {}", rec.seen_in_update, m.seen_in_update, ctx(&ops)));
+        }
+        rep.eval();
         let clr = cg.borrow().get_last_request();
         if clr != m.cg_last {
             rep.violation(&format!("C15/constant-last_request/after-{}", opname), sub, case,
@@ -739,6 +810,9 @@ fn seq_case(rep: &mut Report, seed: u64, case: u64) {
         }
         rep.tally(&format!("seq_constant_get/{}", cat(&cexp)));
     }
+    rep.tally_n("seq_inside_impl_set/observations", m.seen_in_impl_set.len() as u64);
+    rep.tally_n("seq_inside_impl_set/incoming-differs-from-last-success", m.distinguishing_sets);
+    rep.tally_n("seq_inside_update/observations", m.seen_in_update.len() as u64);
     if rep.want_sample(sub) {
         rep.sample(sub, format!("clock-kind={} follows_in_update={} v0={} t0={} ops={:?} => last_request={:?} impl_set log={:?}", kind, follows_in_update, v0, t0, ops, m.last, m.log));
     }
@@ -1888,6 +1962,9 @@ fn main() {
     // coverage the oracle depends on (merged over shards)
     for k in [
         "seq_failed_sets",
+        "seq_inside_impl_set/observations",
+        "seq_inside_impl_set/incoming-differs-from-last-success",
+        "seq_inside_update/observations",
         "seq_refollow_while_following",
         "seq_update/forwarded",
         "seq_update/absent",
